@@ -25,6 +25,8 @@ use crate::bios::{bpb,fat};
 use crate::{DYNERR,STDRESULT};
 
 pub const FS_NAME: &str = "fat";
+/// deepest nesting of subdirectories that will be followed (a path is limited to 260 characters)
+const MAX_DIRECTORY_DEPTH: usize = 130;
 
 pub fn new_fimg(chunk_len: usize,set_time: bool,path: &str) -> Result<super::FileImage,DYNERR> {
     if !pack::is_path_valid(path) {
@@ -880,7 +882,11 @@ impl Disk {
         self.writeback_directory_entry(loc,&entry)
     }
     /// Output FAT directory as a vector of paths that match a glob, calls itself recursively
-    fn glob_node(&mut self,pattern: &str,dir: &directory::Directory,case_sensitive: bool) -> Result<Vec<String>,DYNERR> {
+    fn glob_node(&mut self,pattern: &str,dir: &directory::Directory,case_sensitive: bool,depth: usize) -> Result<Vec<String>,DYNERR> {
+        if depth > MAX_DIRECTORY_DEPTH {
+            error!("directories are nested too deeply, the volume may be damaged");
+            return Err(Box::new(Error::General));
+        }
         // this blindly searches everywhere, we could be more efficient by truncating based on the pattern
         let mut files = Vec::new();
         let glob = match case_sensitive {
@@ -913,7 +919,7 @@ impl Disk {
                         trace!("descend into directory {}",key);
                         let subdir = self.get_directory(&Some(ptr))?;
                         self.curr_path.push(key + "/");
-                        files.append(&mut self.glob_node(pattern,&subdir,case_sensitive)?);
+                        files.append(&mut self.glob_node(pattern,&subdir,case_sensitive,depth+1)?);
                     }
                 }
             }
@@ -922,7 +928,11 @@ impl Disk {
         Ok(files)
     }
     /// Output FAT directory as a JSON object, calls itself recursively
-    fn tree_node(&mut self,dir: &directory::Directory,include_meta: bool) -> Result<json::JsonValue,DYNERR> {
+    fn tree_node(&mut self,dir: &directory::Directory,include_meta: bool,depth: usize) -> Result<json::JsonValue,DYNERR> {
+        if depth > MAX_DIRECTORY_DEPTH {
+            error!("directories are nested too deeply, the volume may be damaged");
+            return Err(Box::new(Error::General));
+        }
         const DATE_FMT: &str = "%Y/%m/%d";
         const TIME_FMT: &str = "%H:%M";
         let mut files = json::JsonValue::new_object();
@@ -943,7 +953,7 @@ impl Disk {
                     if let Some(ptr) = finfo.cluster1 {
                         trace!("descend into directory {}",key);
                         let subdir = self.get_directory(&Some(ptr))?;
-                        files[&key]["files"] = self.tree_node(&subdir,include_meta)?;
+                        files[&key]["files"] = self.tree_node(&subdir,include_meta,depth+1)?;
                     }
                 }
                 if include_meta {
@@ -1091,16 +1101,16 @@ impl super::DiskFS for Disk {
         let (_,dir) = self.get_root_dir()?;
         self.curr_path = vec!["/".to_string()];
         if pattern.starts_with("/") {
-            self.glob_node(pattern, &dir,case_sensitive)
+            self.glob_node(pattern, &dir,case_sensitive,0)
         } else {
-            self.glob_node(&["/",pattern].concat(), &dir, case_sensitive)
+            self.glob_node(&["/",pattern].concat(), &dir, case_sensitive,0)
         }
     }
     fn tree(&mut self,include_meta: bool,indent: Option<u16>) -> Result<String,DYNERR> {
         let (vol,dir) = self.get_root_dir()?;
         let mut tree = json::JsonValue::new_object();
         tree["file_system"] = json::JsonValue::String(FS_NAME.to_string());
-        tree["files"] = self.tree_node(&dir,include_meta)?;
+        tree["files"] = self.tree_node(&dir,include_meta,0)?;
         tree["label"] = json::JsonValue::new_object();
         tree["label"]["name"] = json::JsonValue::String(vol);
         if let Some(spaces) = indent {
